@@ -63,19 +63,31 @@ func subSend() mon.Sub {
 			// half of the cases attach the state through the function adapter with a method value
 			// (wsutil.SendExtensionFunc(state.SetBits)) instead of the state itself: it is the same state either way
 			viaFunc := c.I/5%2 == 1
+			// the application keeps its extension list in ONE slice and spreads it into SetExtensions every time (half of
+			// the cases; the other half passes fresh arguments): the list is the application's, before and after a Reset
+			var kept []wsutil.SendExtension
+			var keptFor *wsflate.MessageState
 			attach := func(ms *wsflate.MessageState) {
 				var x wsutil.SendExtension = ms
 				if viaFunc {
 					x = wsutil.SendExtensionFunc(ms.SetBits)
 				}
+				var list []wsutil.SendExtension
 				switch other {
 				case 0:
-					w.SetExtensions(x)
+					list = []wsutil.SendExtension{x}
 				case 1:
-					w.SetExtensions(rsv3, x)
+					list = []wsutil.SendExtension{rsv3, x}
 				case 2:
-					w.SetExtensions(x, rsv3)
+					list = []wsutil.SendExtension{x, rsv3}
 				}
+				if c.I/3%2 == 0 {
+					if kept == nil || keptFor != ms {
+						kept, keptFor = list, ms
+					}
+					list = kept
+				}
+				w.SetExtensions(list...)
 			}
 			attach(ms)
 			nmsg := 1 + c.Rng.Intn(6)
